@@ -80,25 +80,26 @@ open Sem
 
 /-- What the rules need from the evaluator, on a region `good` of expressions (C08 proves it
 for the real evaluator on `H₈`; findings F1–F4 are outside). All statements are about the
-reference semantics `Sem.evalE`, in every context.
+reference semantics `Sem.evalE` over the number system `N`, in every context (C08's theorems are
+relative to a number system that agrees with the evaluator's primitives).
 
 * `truthy`: a definite truthiness is the truthiness of the (first) value, whenever the
   evaluation succeeds;
 * `pure`: "no side effects" + no allocation ⇒ a successful evaluation leaves the state untouched;
 * `str`: a definite string value is the value;
 * `single`: "cannot return multiple values" ⇒ exactly one value. -/
-structure EvalSound (api : EvalApi) (good : Expr → Prop) : Prop where
+structure EvalSound (N : NumOps) (api : EvalApi) (good : Expr → Prop) : Prop where
   truthy : ∀ (e : Expr) (b : Bool), good e → api.isTruthy e = some b →
-    ∀ {N : NumOps} (call : CallFn N) (ρ : ExtOracle N) (k : Nat) (env : Env N) (σ σ' : State N) (vs : List (Val N)),
+    ∀ (call : CallFn N) (ρ : ExtOracle N) (k : Nat) (env : Env N) (σ σ' : State N) (vs : List (Val N)),
       evalE call ρ k env e σ = .ok vs σ' → (first vs).truthy = b
   pure : ∀ (e : Expr), good e → api.hasSideEffects e = false → noAlloc e = true →
-    ∀ {N : NumOps} (call : CallFn N) (ρ : ExtOracle N) (k : Nat) (env : Env N) (σ σ' : State N) (vs : List (Val N)),
+    ∀ (call : CallFn N) (ρ : ExtOracle N) (k : Nat) (env : Env N) (σ σ' : State N) (vs : List (Val N)),
       evalE call ρ k env e σ = .ok vs σ' → σ' = σ
   str : ∀ (e : Expr) (s : List UInt8), good e → api.kind e = .string s →
-    ∀ {N : NumOps} (call : CallFn N) (ρ : ExtOracle N) (k : Nat) (env : Env N) (σ σ' : State N) (vs : List (Val N)),
+    ∀ (call : CallFn N) (ρ : ExtOracle N) (k : Nat) (env : Env N) (σ σ' : State N) (vs : List (Val N)),
       evalE call ρ k env e σ = .ok vs σ' → first vs = .str s
   single : ∀ (e : Expr), good e → api.canReturnMultiple e = false →
-    ∀ {N : NumOps} (call : CallFn N) (ρ : ExtOracle N) (k : Nat) (env : Env N) (σ σ' : State N) (vs : List (Val N)),
+    ∀ (call : CallFn N) (ρ : ExtOracle N) (k : Nat) (env : Env N) (σ σ' : State N) (vs : List (Val N)),
       evalE call ρ k env e σ = .ok vs σ' → vs = [first vs]
 
 /-- A stronger contract, needed by the generic lifting theorem (which wants hooks that are exact
@@ -106,15 +107,15 @@ up to budget exhaustion, in EVERY context): a decided expression has that truthi
 it evaluates; a decided expression WITHOUT side effects evaluates — unless the budget runs out —
 successfully and leaves the state untouched. The real evaluator meets `pureTotal` only on
 expressions that allocate nothing (`{}` is "pure" for it, yet allocates a table); `litApi` meets it. -/
-structure EvalTotal (api : EvalApi) : Prop where
+structure EvalTotal (N : NumOps) (api : EvalApi) : Prop where
   decided : ∀ (e : Expr) (b : Bool), api.isTruthy e = some b →
-    ∀ {N : NumOps} (call : CallFn N) (ρ : ExtOracle N) (k : Nat) (env : Env N) (σ σ' : State N) (vs : List (Val N)),
+    ∀ (call : CallFn N) (ρ : ExtOracle N) (k : Nat) (env : Env N) (σ σ' : State N) (vs : List (Val N)),
       evalE call ρ k env e σ = .ok vs σ' → (first vs).truthy = b
   pureTotal : ∀ (e : Expr) (b : Bool), api.isTruthy e = some b → api.hasSideEffects e = false →
-    ∀ {N : NumOps} (call : CallFn N) (ρ : ExtOracle N) (k : Nat) (env : Env N) (σ : State N),
+    ∀ (call : CallFn N) (ρ : ExtOracle N) (k : Nat) (env : Env N) (σ : State N),
       evalE call ρ k env e σ = .timeout ∨ ∃ vs, evalE call ρ k env e σ = .ok vs σ
   single : ∀ (e : Expr), api.canReturnMultiple e = false →
-    ∀ {N : NumOps} (call : CallFn N) (ρ : ExtOracle N) (k : Nat) (env : Env N) (σ σ' : State N) (vs : List (Val N)),
+    ∀ (call : CallFn N) (ρ : ExtOracle N) (k : Nat) (env : Env N) (σ σ' : State N) (vs : List (Val N)),
       evalE call ρ k env e σ = .ok vs σ' → vs = [first vs]
 
 end DarkluaModel.Rules
